@@ -200,6 +200,9 @@ func BuildWorld(sc *Scenario, bo BuildOpt) (w *World) {
 	if o.Fallback {
 		opts = append(opts, rux.HandleFallbackRoute)
 	}
+	if o.EncodedPath {
+		opts = append(opts, rux.UseEncodedPath)
+	}
 	w.R = rux.New(opts...)
 	if o.OnPanic != "" {
 		w.R.OnPanic = w.h(o.OnPanic)
@@ -476,6 +479,9 @@ func (w *World) act(rs *reqState, id string, c *rux.Context, a Action) {
 			add("do", "flush")
 			f.Flush()
 		}
+	case "rcflush": // the Go 1.20 way: http.NewResponseController(w).Flush(), which prefers a FlushError method
+		add("do", "rcflush")
+		http.NewResponseController(c.Resp).Flush()
 	case "httperr":
 		add("do", "httperr:"+strconv.Itoa(a.N)+":"+a.S)
 		c.HTTPError(a.S, a.N)
@@ -726,7 +732,7 @@ func (w *World) Serve(task, idx int, rq *Req) *ReqRec {
 		rec.Hits, rec.Stores = h1-hits0, s1-stores0
 		if cr := w.R.VerifCache(); cr != nil {
 			ks, _ := cr.VerifKeys()
-			rec.CacheKeys = strings.Join(ks, ",")
+			rec.CacheKeys = strings.Join(ks, "\x00")
 		}
 	}()
 	if rq.Kind == "match" {
